@@ -43,6 +43,10 @@ VResume == /\ ph = 2 /\ v.wait = "stopped"
            /\ UNCHANGED <<m, prog, steps, cmds>>
 VNextA == VRun \/ VCont \/ VIntr \/ VResume
 VSpec == VInit /\ [][VNextA]_vvars
+\* liveness (C03 at the level of the implementation model): an interrupt delivered at any opcode
+\* boundary brings the machine to the prompt, provided execute keeps being called
+VSpecFair == VSpec /\ WF_vvars(VRun)
+IntrConverges == [](ph = 2 => <>(v.wait = "stopped"))
 
 \* the two machines agree whenever both wait at a prompt after the same commands
 Refines ==
